@@ -95,7 +95,10 @@ def run(rep, tier, seed, replay):
             nontrivial.add(hashlib.sha1(case.encode()).digest())
         if len(samples) < 5 and i % 397 == 11:
             samples.append({"case": case[:300], "impl": o[:400]})
-        viol = G.oracle(case, o)
+        try:
+            viol = G.oracle(case, o)
+        except Exception as e:      # belt and braces: the oracle is total, the check must never die on an output
+            viol = [("crash", "oracle could not interpret the implementation output (%r): %s" % (e, o[:160]))]
         if m != o:
             mism += 1
             if viol:
